@@ -59,7 +59,7 @@ pub fn plan(id: &str, tier: &str) -> Option<Plan> {
         "C16" => Some(Plan::new(if _t { 288 } else { 12 }, 1800)),
         "C17" => Some(Plan::new(if _t { 320 } else { 12 }, 1500)),
         "C20" => Some(Plan::new(if _t { 32 } else { 16 }, 1500)),
-        "C12" => Some(Plan::new(c12::shards(), 1500)),
+        "C12" => Some(Plan::new(c12::shards(_t), 1500)),
         "C09" => Some(Plan::new(if _t { 64 } else { 16 }, 1500)),
         "C04" => Some(Plan::new(if _t { 28 } else { 14 }, 2400)),
         "C11" => Some(Plan::new(if _t { 16 } else { 4 }, 900)),
